@@ -63,6 +63,7 @@ def gen_case(g):
     case = {"fn": fn, "poly": poly, "graded": rng.random() < 0.5, "reverse": rng.random() < 0.5}
     if fn == "set_dimensions":
         case["dimensions"] = rng.choice([None, 1, 2, 3, 4, 5])
+        case["options"] = {"retain_names": rng.random() < 0.6, "retain_coefficients": rng.random() < 0.3}
     if fn == "extreme":
         case["options"] = {"sort_graded": rng.random() < 0.7, "sort_reverse": rng.random() < 0.3}
         case["which"] = rng.choice(["argmax", "argmin", "amax", "amin", "max_method", "min_method"])
@@ -182,8 +183,14 @@ def run_case(case, ctx):
                               f"decompose slices do not sum to the input: {text}", case)
         elif fn == "set_dimensions":
             dims = case["dimensions"]
-            got = numpoly.set_dimensions(poly, dims) if dims is not None else \
-                numpoly.set_dimensions(poly)
+            defaults = numpoly.get_options()
+            facts["retain_names"] = case.get("options", {}).get("retain_names", True)
+            try:
+                with numpoly.global_options(**case.get("options", {})):
+                    got = numpoly.set_dimensions(poly, dims) if dims is not None else \
+                        numpoly.set_dimensions(poly)
+            finally:
+                numpoly.set_options(**defaults)
             target = len(names) + 1 if dims is None else dims
             facts["direction"] = "up" if target > len(names) else (
                 "down" if target < len(names) else "same")
@@ -244,10 +251,13 @@ def run_case(case, ctx):
             defaults = numpoly.get_options()
             try:
                 with numpoly.global_options(**opts):
+                    buf = None
+                    if which in ("argmax", "argmin") and ctx.case_index % 2:
+                        buf = numpy.full((), -7, dtype=numpy.intp)
                     if which == "argmax":
-                        res = numpoly.argmax(poly)
+                        res = numpoly.argmax(poly, out=buf) if buf is not None else numpoly.argmax(poly)
                     elif which == "argmin":
-                        res = numpoly.argmin(poly)
+                        res = numpoly.argmin(poly, out=buf) if buf is not None else numpoly.argmin(poly)
                     elif which == "amax":
                         res = numpoly.amax(poly)
                     elif which == "amin":
@@ -264,6 +274,11 @@ def run_case(case, ctx):
             best = max(keys) if "max" in which else min(keys)
             if which.startswith("arg"):
                 pos = int(res)
+                if buf is not None and int(buf) != pos:
+                    ctx.violation(dict(facts, failure="out"),
+                                  f"{which}(poly, out=buf) returned {pos} but left {int(buf)} in buf",
+                                  case)
+                    return
                 if not 0 <= pos < len(elements) or keys[pos] != best:
                     ctx.violation(dict(facts, failure="value"),
                                   f"{which} = {res}: element {pm[elements[pos]] if 0 <= pos < len(elements) else '?'} "
